@@ -21,7 +21,41 @@ def build_replay():
         _built['r'] = (False, repr(e))
     return _built['r']
 
+def _tree_key():
+    try:
+        h = subprocess.run('git -C /repo rev-parse HEAD; git -C /repo diff | sha1sum', shell=True, capture_output=True, text=True).stdout
+        return h.strip().replace('\n', '|')
+    except Exception:
+        return None
+
 def replay_on_real_code(args, timeout=300):
+    # results of the (deterministic) bounded searches are cached per source tree: several obligations of one run ask for the same search
+    import json, fcntl
+    cache_file = os.path.join(ROOT, 'build', 'hunt_cache.json')
+    key = None
+    if args and args[0] in ('hunt-lang', 'hunt-sound'):
+        tk = _tree_key()
+        if tk:
+            key = tk + '|' + ' '.join(args)
+            try:
+                c = json.load(open(cache_file))
+                if key in c: return c[key]
+            except Exception: pass
+    r = _replay_uncached(args, timeout)
+    if key and r['rc'] in (0, 1):
+        try:
+            os.makedirs(os.path.dirname(cache_file), exist_ok=True)
+            with open(cache_file + '.lock', 'w') as lk:
+                fcntl.flock(lk, fcntl.LOCK_EX)
+                try: c = json.load(open(cache_file))
+                except Exception: c = {}
+                if len(c) > 200: c = {}
+                c[key] = r
+                json.dump(c, open(cache_file, 'w'))
+        except Exception: pass
+    return r
+
+def _replay_uncached(args, timeout=300):
     ok, log = build_replay()
     if not ok: return {'rc': -1, 'output': 'replay binary could not be built against the current tree:\n' + log}
     try:
@@ -87,5 +121,5 @@ def hunt(prop, unit, label, failure, repo):
             if m:
                 args = shlex.split(m.group(1))
                 return {'args': args, 'output': r['output'] + replay_on_real_code(args)['output']}
-        return {'why': 'no set of at most 2 words of length <= 2 over {a,B,1,space,-} under any of the 256 conversion/case/repetition flag subsets makes the real library miss a test case; %d directed candidates tried' % tried}
+        return {'why': 'no set of at most 2 words of length <= 2 over {a,B,1,space} under any of the 256 conversion/case/repetition flag subsets makes the real library miss a test case; %d directed candidates tried' % tried}
     return {'why': 'Verus gives no counterexample; %d directed candidate inputs of this obligation were replayed on the real library and none misbehaves' % tried}
